@@ -442,6 +442,8 @@ func (k *kContainer) exec(ctx context.Context, e *kExec) (runner.Result, *kOut) 
 	return res, out
 }
 
+func containerInitPid(k *kContainer) int { return container.VInitPid(k.env) }
+
 func pidAlive(pid int) bool {
 	data, err := os.ReadFile(fmt.Sprintf("/proc/%d/stat", pid))
 	if err != nil {
